@@ -283,6 +283,10 @@ def stream_fill_rule(ctx, r1):
     # the MD5 announced for a stream is computed over the same bytes: the digest loop of ObjectDataStreamTrait::md5 ends only on a read of 0
     md5s = [p_ for p_ in prog.funcs if re.search(r"ObjectDataStreamTrait.*::md5$", p_)]
     if not md5s:
+        # the private digest loop may have been folded into its only user, md5_base64
+        md5s = [p_ for p_ in prog.funcs if re.search(r"ObjectDataStreamTrait.*::md5_base64$", p_) and
+                call_sites(prog.funcs[p_], lambda p, c: c.get("name") == "read" and (c.get("trait") or "").endswith("io::Read"))]
+    if not md5s:
         raise model.AnchorMissing("ObjectDataStreamTrait::md5 not found")
     m5 = prog.fn(md5s[0])
     ctx.analysed(m5.path)
@@ -318,6 +322,13 @@ def stream_fill_rule(ctx, r1):
     # duration of one block reads ahead and drops the surplus when the block is done, so the next block starts too far
     for s in reads + full:
         selfty = (s.term.callee().get("substs") or ["?"])[0]
+        if re.match(r"^[A-Z]\w{0,2}$", selfty):
+            # the read sits in a generic helper (`fn fill<R: Read + ?Sized>(stream: &mut R, ..)`) that was analysed as part of this function: the
+            # receiver is the caller's value, its type is the type of the place it was taken from
+            tys = [z_[3] for z_ in walk(Slicer(s.func.body).expand(s.expr[2][0])) if z_[0] in ("var", "tmp") and len(z_) > 3 and isinstance(z_[3], str)
+                   and not re.match(r"^(&mut |&)*[A-Z]\w{0,2}$", z_[3])]
+            if tys:
+                selfty = re.sub(r"^.*(MutexGuard|RefMut)<'?\w*,? ?(.*)>$", r"\2", tys[0])
         key = "read_block_stream reads the object's stream directly"
         if re.match(r"^(&mut |&|std::boxed::Box<)*dyn sender::objectdesc::ObjectDataStreamTrait", selfty):
             r1.ok(key, "Self = %s" % selfty, s.loc)
